@@ -409,6 +409,18 @@ def _decoy_first(world, captured):
     return n
 
 
+def _placing_events(events, details, dest):
+    """How many audit events put a file under dest: shutil.copyfile / copy, or a creating / truncating open there
+    (an implementation may copy with its own read/write loop)."""
+    n = 0
+    for (ev, paths), dt in zip(events, details):
+        if ev == "shutil.copyfile" and paths and _under(paths[-1], dest):
+            n += 1
+        elif ev == "open-w" and dt.get("flags", 0) & (os.O_CREAT | os.O_TRUNC) and paths and _under(paths[0], dest):
+            n += 1
+    return n
+
+
 # ---------------------------------------------------------------------- C13
 class C13:
     rule_extra = ('Later additions: metafile / search / destination directories spelled with trailing or doubled separators, dot and dot-dot segments or relative to the cwd; two-phase cases; search paths naming a single file; edited metafiles.')
@@ -471,7 +483,7 @@ class C13:
         events = env.AUDIT.stop()
         if captured.get("paths_respelled"):
             counters["directories_respelled_cases"] = 1
-        counters["copy_events"] = sum(1 for e, _ in events if e == "shutil.copyfile")
+        counters["copy_events"] = _placing_events(events, list(env.AUDIT.details), world["dest"])
         for e, _ in events:
             counters["audit:" + e] = counters.get("audit:" + e, 0) + 1
         pl = 2 ** case["pl_exp"]
@@ -627,7 +639,7 @@ class C14:
                 counters["directories_respelled_cases"] = 1
             returned.append(oc.ret if oc.ok else oc.excname())
             decoy_first += _decoy_first(world, captured)
-            counters["copy_events"] = counters.get("copy_events", 0) + sum(1 for e, _ in events if e == "shutil.copyfile")
+            counters["copy_events"] = counters.get("copy_events", 0) + _placing_events(events, details, world["dest"])
             for e, _ in events:
                 counters["audit:" + e] = counters.get("audit:" + e, 0) + 1
             if rep:
@@ -853,9 +865,10 @@ class C19:
             counters["escaping_cases"] = 1
             if case.get("meta_as_dir"):
                 counters["escaping_cases_metafile_directory"] = 1
-        if captured["matched"] or any(e == "shutil.copyfile" for e, _ in events):
+        placed = _placing_events(events, list(env.AUDIT.details), dest)
+        if captured["matched"] or placed or any(e == "shutil.copyfile" for e, _ in events):
             counters["candidate_matched"] = 1
-        if not escapes and any(e == "shutil.copyfile" for e, _ in events):
+        if not escapes and placed:
             counters["benign_copy_events"] = 1
 
         def cls(c):
